@@ -1,0 +1,30 @@
+//go:build verif
+// +build verif
+
+package main
+
+import (
+	"fmt"
+	"os"
+	"strings"
+)
+
+// Only compiled with the "verif" build tag: lets the verification harness
+// run the program's own stringer step (an internal package) on a given
+// types.go. FITGEN_VERIF_STRINGER=<types.go>|<out>|<T1,T2,...>
+func init() {
+	spec := os.Getenv("FITGEN_VERIF_STRINGER")
+	if spec == "" {
+		return
+	}
+	parts := strings.SplitN(spec, "|", 3)
+	if len(parts) != 3 {
+		fmt.Fprintln(os.Stderr, "FITGEN_VERIF_STRINGER: want <types.go>|<out>|<types>")
+		os.Exit(3)
+	}
+	if err := runStringerOnTypes(parts[0], parts[1], strings.Split(parts[2], ",")); err != nil {
+		fmt.Fprintln(os.Stderr, err)
+		os.Exit(1)
+	}
+	os.Exit(0)
+}
